@@ -77,6 +77,8 @@ def run(ctx):
     histories = [()]
     for n in range(1, maxlen + 1):
         histories += list(itertools.product(tacdrun.BEHAVIOURS, repeat=n))
+    # aborted connections (RST while queued / right after accept): alone and before each behaviour
+    histories += [("connect-reset-burst",)] + [("connect-reset-burst", b) for b in tacdrun.BEHAVIOURS]
     with concurrent.futures.ThreadPoolExecutor(max_workers=12) as ex:
         results = list(ex.map(lambda h: one(h, binary), histories))
     helper = mockca.Helper()
